@@ -163,7 +163,7 @@ def gen_cases(tier, seed):
     from .. import windows
 
     for action, n in (('pause', 60 if quick else 2500), ('cancel', 40 if quick else 1500)):
-        for sp in windows.cases(rng, action, n, core_reps=1 if quick else 4, nths=(0, 1) if quick else (0, 1, 2)):
+        for sp in windows.cases(rng, action, n, core_reps=1 if quick else 3, nths=(0, 1) if quick else (0, 1, 2, 3), all_lines=not quick):
             sp['family'] = 'C-line-' + action
             cases.append(sp)
     # (D) re-entrant subscribers
